@@ -246,7 +246,17 @@ def run(facts, rep, events, model):
             n += 1
             rep.violation("D1", "store::Store::open", "before-lock|%s" % c.split("::", 1)[1], "%s at %s can run before the directory lock is held and is not one of the allowed probes" % (c, t.get("ln")), site=t.get("ln"))
     # ---- D2 ---------------------------------------------------------------------------------
+    lk_entry = lk
     aggs = [(b, s) for b in range(lk.n) for s in lk.stmts(b) if s["k"] == "assign" and s["rv"]["k"] == "agg" and s["rv"].get("name") == "nomt::store::flock::Flock"]
+    if not aggs:
+        # the construction sits in a private step of the lock module that Flock::lock calls (`Self::try_acquire(lock_file)`):
+        # the step is judged in its place
+        for c in sorted({t.get("callee") or "" for _b, t in lk.calls()}):
+            cb_ = facts.bodies.get(c)
+            if cb_ is not None and c.startswith("nomt::store::flock::") and any(s["k"] == "assign" and s["rv"]["k"] == "agg" and s["rv"].get("name") == "nomt::store::flock::Flock" for b in range(cb_.n) for s in cb_.stmts(b)):
+                lk = cb_
+                aggs = [(b, s) for b in range(lk.n) for s in lk.stmts(b) if s["k"] == "assign" and s["rv"]["k"] == "agg" and s["rv"].get("name") == "nomt::store::flock::Flock"]
+                break
     tl = [b for b, t in lk.calls() if t.get("callee") == TRY_LOCK]
     ok = False
     why = "no Flock construction / no try_lock_exclusive call"
@@ -283,12 +293,13 @@ def run(facts, rep, events, model):
     same = False
     for (ab, s) in aggs:
         fl = s["rv"]["fields"]
-        a = {(r.kind, r.bb) for r in roots(lk, s["rv"]["ops"][fl.index(LOCK_FIELD)]) if r.kind == "call"}
+        a = {(r.kind, r.bb, str(r.what) if r.kind == "param" else "") for r in roots(lk, s["rv"]["ops"][fl.index(LOCK_FIELD)]) if r.kind in ("call", "param")}
         for t in [lk.term(x) for x in tl]:
-            b_ = {(r.kind, r.bb) for r in roots(lk, t["args"][0]) if r.kind == "call"}
+            b_ = {(r.kind, r.bb, str(r.what) if r.kind == "param" else "") for r in roots(lk, t["args"][0]) if r.kind in ("call", "param")}
             if a & b_:
                 same = True
     rep.check(same, "D2", "store::flock::Flock::lock", "same-file", "the file stored in the Flock is not the file that was locked", site=lk.span, detail="lock_fd is the descriptor passed to try_lock_exclusive")
+    lk = lk_entry
     # flock flags
     flock_calls = []
     for body in facts.bodies.values():
@@ -393,7 +404,12 @@ def run(facts, rep, events, model):
     rep.check(callers == {"<nomt::store::flock::Flock as core::ops::drop::Drop>::drop"}, "D4", "sys::unix::unlock", "single-unlock-site", "unlock is called from %s (only <Flock as Drop>::drop may release the lock)" % sorted(callers), detail="callers = %s" % sorted(callers))
     callers = {c[0] for c in facts.callers().get(TRY_LOCK, [])}
     n += 1
-    rep.check(callers == {LOCK}, "D2", "sys::unix::try_lock_exclusive", "single-lock-site", "try_lock_exclusive is called from %s" % sorted(callers), detail="callers = %s" % sorted(callers))
+    # Flock::lock itself, or the private step of the lock module that constructs the Flock on its behalf (called only from it)
+    steps = {LOCK}
+    for c in callers:
+        if c.startswith("nomt::store::flock::") and c != LOCK and {x[0] for x in facts.callers().get(c, [])} <= {LOCK}:
+            steps.add(c)
+    rep.check(bool(callers) and callers <= steps, "D2", "sys::unix::try_lock_exclusive", "single-lock-site", "try_lock_exclusive is called from %s" % sorted(callers), detail="callers = %s" % sorted(callers))
     # ---- D3 ---------------------------------------------------------------------------------
     sh_aggs = [(b, s) for b in range(op.n) for s in op.stmts(b) if s["k"] == "assign" and s["rv"]["k"] == "agg" and s["rv"].get("name") == "nomt::store::Shared"]
     n += 1
